@@ -45,7 +45,7 @@ ASSUMPTIONS = [
 ]
 BUDGET = {
     "quick": dict(cases=12, shards=4, timeout=600),
-    "thorough": dict(cases=40, shards=16, timeout=3000, time=330),
+    "thorough": dict(cases=60, shards=16, timeout=3000, time=400),
 }
 CLASSES = ["keep2_default", "keepall_noepoch", "keepall_default", "keep2_noepoch", "keep2_custom",
            "keepall_mixed", "keep2_default", "keepall_custom", "keepall_default", "keep2_default"]
@@ -59,8 +59,9 @@ FLOORS = {
         "classes": {"keep2_default": 12, "keepall_default": 6, "keep2_custom": 3, "keepall_custom": 3,
                     "keepall_noepoch": 4, "keep2_noepoch": 3, "keepall_mixed": 3,
                     "branch_new_best": 30, "branch_prev_best": 10, "branch_older_best": 6,
-                    "first_update_no_csv": 30, "user_entries": 12, "lr_reduced": 3},
-        "stats": {"crash_states": 700, "crash_states_real_exit": 200, "crash_model_faithful": 1,
+                    "first_update_no_csv": 30, "user_entries": 12, "lr_reduced": 3,
+                    "two_faults": 16, "two_faults_leftover_directed": 12},
+        "stats": {"second_fault_states": 100, "crash_states": 700, "crash_states_real_exit": 200, "crash_model_faithful": 1,
                   "state_csv_created_empty": 30, "state_temp_file_present": 400,
                   "state_between_replaces": 80, "state_mid_cleanup": 25,
                   "state_history_before_checkpoint": 60, "state_checkpoint_before_history": 60},
@@ -68,14 +69,15 @@ FLOORS = {
         "distinct": 18,
     },
     "thorough": {
-        "events": {"traced_update": 1500, "recovery": 15000, "real_process_death": 10000},
-        "classes": {"keep2_default": 150, "keepall_default": 80, "keep2_custom": 40, "keepall_custom": 40,
-                    "keepall_noepoch": 40, "keep2_noepoch": 40, "keepall_mixed": 40, "two_faults": 150,
-                    "branch_new_best": 400, "branch_prev_best": 150, "branch_older_best": 100},
-        "stats": {"crash_states": 15000, "crash_states_real_exit": 10000, "crash_model_faithful": 1,
-                  "second_fault_states": 1500, "state_csv_created_empty": 400},
-        "sets": {"crash_state": 8000, "crash_state_real_exit": 6000, "crash_point": 8},
-        "distinct": 250,
+        "events": {"traced_update": 1200, "recovery": 12000, "real_process_death": 8000},
+        "classes": {"keep2_default": 80, "keepall_default": 50, "keep2_custom": 25, "keepall_custom": 25,
+                    "keepall_noepoch": 25, "keep2_noepoch": 25, "keepall_mixed": 25, "two_faults": 80,
+                    "two_faults_leftover_directed": 60,
+                    "branch_new_best": 250, "branch_prev_best": 120, "branch_older_best": 80},
+        "stats": {"crash_states": 10000, "crash_states_real_exit": 8000, "crash_model_faithful": 1,
+                  "second_fault_states": 1200, "state_csv_created_empty": 250},
+        "sets": {"crash_state": 7000, "crash_state_real_exit": 6000, "crash_point": 8},
+        "distinct": 150,
     },
 }
 EXHAUSTIVE = {"thorough": False}
